@@ -165,6 +165,8 @@ func (al Alphabet) Gen(x *explore.X, budget *int, depth int) map[string]any {
 			a := sub()
 			b := sub()
 			s[f.key] = map[string]any{"a": a, "b": b}
+		case "propEsc":
+			s[f.key] = map[string]any{"s/l~t": sub()}
 		case "propA-ro":
 			a := sub()
 			a["readOnly"] = true
